@@ -145,16 +145,23 @@ fn o(lits: &[&'static str], kind: Kind, ty: Ty) -> O {
         lits: lits.to_vec(),
         kind,
         ty,
+        doc: vec![],
     }
 }
 fn p(name: &'static str, req: bool, ty: Ty) -> P {
-    P { name, req, ty }
+    P {
+        name,
+        req,
+        ty,
+        doc: vec![],
+    }
 }
 
 // ---- S01 -----------------------------------------------------------------------------------
 #[derive(ArgParse)]
 #[cli(help_path = "h-cli")]
 pub struct S01ReqLong {
+    /// DOC_S01ReqLong_one_req_field explains this item
     #[cli(long = "one-req-field")]
     one_req_field: i32,
 }
@@ -162,7 +169,8 @@ impl Shape for S01ReqLong {
     fn grammar() -> Grammar {
         Grammar {
             name: "S01ReqLong",
-            opts: vec![o(&["--one-req-field"], Kind::Req, INT_I32)],
+            doc: vec![],
+            opts: vec![o(&["--one-req-field"], Kind::Req, INT_I32).d(&["DOC_S01ReqLong_one_req_field"])],
             pos: vec![],
             sub: None,
             help: help::<Self>(),
@@ -180,6 +188,7 @@ impl Shape for S01ReqLong {
 // ---- S02 -----------------------------------------------------------------------------------
 #[derive(ArgParse)]
 pub struct S02Aliases {
+    /// DOC_S02Aliases_num explains this item
     #[cli(short = "s", long = "long")]
     num: i32,
     #[cli(short = "b")]
@@ -189,8 +198,9 @@ impl Shape for S02Aliases {
     fn grammar() -> Grammar {
         Grammar {
             name: "S02Aliases",
+            doc: vec![],
             opts: vec![
-                o(&["-s", "--long"], Kind::Req, INT_I32),
+                o(&["-s", "--long"], Kind::Req, INT_I32).d(&["DOC_S02Aliases_num"]),
                 o(&["-b"], Kind::Flag, Ty::Str),
             ],
             pos: vec![],
@@ -210,10 +220,14 @@ impl Shape for S02Aliases {
 // ---- S03 -----------------------------------------------------------------------------------
 #[derive(ArgParse)]
 pub struct S03Packaging {
+    /// DOC_S03Packaging_req_field explains this item
     #[cli(long = "req-field")]
     req_field: i32,
+    /// DOC_S03Packaging_opt_field_L1 explains this item
+    /// DOC_S03Packaging_opt_field_L2 explains this item
     #[cli(short = "o")]
     opt_field: Option<i32>,
+    /// DOC_S03Packaging_rep_field explains this item
     #[cli(long = "rep")]
     rep_field: Vec<i32>,
 }
@@ -221,10 +235,11 @@ impl Shape for S03Packaging {
     fn grammar() -> Grammar {
         Grammar {
             name: "S03Packaging",
+            doc: vec![],
             opts: vec![
-                o(&["--req-field"], Kind::Req, INT_I32),
-                o(&["-o"], Kind::Opt, INT_I32),
-                o(&["--rep"], Kind::Rep, INT_I32),
+                o(&["--req-field"], Kind::Req, INT_I32).d(&["DOC_S03Packaging_req_field"]),
+                o(&["-o"], Kind::Opt, INT_I32).d(&["DOC_S03Packaging_opt_field_L1", "DOC_S03Packaging_opt_field_L2"]),
+                o(&["--rep"], Kind::Rep, INT_I32).d(&["DOC_S03Packaging_rep_field"]),
             ],
             pos: vec![],
             sub: None,
@@ -248,15 +263,18 @@ impl Shape for S03Packaging {
 #[derive(ArgParse)]
 #[cli(help_path = "h-cli")]
 pub struct S04PosOnly {
+    /// DOC_S04PosOnly_pos_one explains this item
     pos_one: String,
+    /// DOC_S04PosOnly_pos_two explains this item
     pos_two: i64,
 }
 impl Shape for S04PosOnly {
     fn grammar() -> Grammar {
         Grammar {
             name: "S04PosOnly",
+            doc: vec![],
             opts: vec![],
-            pos: vec![p("pos_one", true, Ty::Str), p("pos_two", true, INT_I64)],
+            pos: vec![p("pos_one", true, Ty::Str).d(&["DOC_S04PosOnly_pos_one"]), p("pos_two", true, INT_I64).d(&["DOC_S04PosOnly_pos_two"])],
             sub: None,
             help: help::<Self>(),
         }
@@ -274,19 +292,22 @@ impl Shape for S04PosOnly {
 #[derive(ArgParse)]
 #[cli(help_path = "h-cli")]
 pub struct S05PosOptLast {
+    /// DOC_S05PosOptLast_pos_one explains this item
     pub pos_one: String,
     pub(crate) pos_two: i64,
+    /// DOC_S05PosOptLast_pos_three explains this item
     pos_three: Option<usize>,
 }
 impl Shape for S05PosOptLast {
     fn grammar() -> Grammar {
         Grammar {
             name: "S05PosOptLast",
+            doc: vec![],
             opts: vec![],
             pos: vec![
-                p("pos_one", true, Ty::Str),
+                p("pos_one", true, Ty::Str).d(&["DOC_S05PosOptLast_pos_one"]),
                 p("pos_two", true, INT_I64),
-                p("pos_three", false, INT_USIZE),
+                p("pos_three", false, INT_USIZE).d(&["DOC_S05PosOptLast_pos_three"]),
             ],
             sub: None,
             help: help::<Self>(),
@@ -309,12 +330,15 @@ impl Shape for S05PosOptLast {
 #[derive(ArgParse)]
 #[cli(help_path = "h-cli, run")]
 pub struct S06StrKinds {
+    /// DOC_S06StrKinds_opt_str explains this item
     #[cli(short = "a")]
     opt_str: Option<&'static str>,
+    /// DOC_S06StrKinds_opt_unix explains this item
     #[cli(short = "b")]
     opt_unix: Option<&'static UnixStr>,
     #[cli(short = "c")]
     rep_str: Vec<&'static str>,
+    /// DOC_S06StrKinds_rep_unix explains this item
     #[cli(short = "d")]
     rep_unix: Vec<&'static UnixStr>,
 }
@@ -322,11 +346,12 @@ impl Shape for S06StrKinds {
     fn grammar() -> Grammar {
         Grammar {
             name: "S06StrKinds",
+            doc: vec![],
             opts: vec![
-                o(&["-a"], Kind::Opt, Ty::Str),
-                o(&["-b"], Kind::Opt, Ty::Unix),
+                o(&["-a"], Kind::Opt, Ty::Str).d(&["DOC_S06StrKinds_opt_str"]),
+                o(&["-b"], Kind::Opt, Ty::Unix).d(&["DOC_S06StrKinds_opt_unix"]),
                 o(&["-c"], Kind::Rep, Ty::Str),
-                o(&["-d"], Kind::Rep, Ty::Unix),
+                o(&["-d"], Kind::Rep, Ty::Unix).d(&["DOC_S06StrKinds_rep_unix"]),
             ],
             pos: vec![],
             sub: None,
@@ -351,11 +376,14 @@ impl Shape for S06StrKinds {
 #[derive(ArgParse)]
 #[cli(help_path = "h-cli, list")]
 pub struct S07Owned {
+    /// DOC_S07Owned_opt_string explains this item
     #[cli(long = "opt-string")]
     opt_string: Option<String>,
+    /// DOC_S07Owned_rep_unix_string explains this item
     #[cli(long = "rep")]
     rep_unix_string: Vec<UnixString>,
-    /// This is required
+    /// DOC_S07Owned_required_string_L1 explains this item
+    /// DOC_S07Owned_required_string_L2 explains this item
     #[cli(long = "req")]
     required_string: String,
 }
@@ -363,10 +391,11 @@ impl Shape for S07Owned {
     fn grammar() -> Grammar {
         Grammar {
             name: "S07Owned",
+            doc: vec![],
             opts: vec![
-                o(&["--opt-string"], Kind::Opt, Ty::Str),
-                o(&["--rep"], Kind::Rep, Ty::Str),
-                o(&["--req"], Kind::Req, Ty::Str),
+                o(&["--opt-string"], Kind::Opt, Ty::Str).d(&["DOC_S07Owned_opt_string"]),
+                o(&["--rep"], Kind::Rep, Ty::Str).d(&["DOC_S07Owned_rep_unix_string"]),
+                o(&["--req"], Kind::Req, Ty::Str).d(&["DOC_S07Owned_required_string_L1", "DOC_S07Owned_required_string_L2"]),
             ],
             pos: vec![],
             sub: None,
@@ -387,30 +416,37 @@ impl Shape for S07Owned {
 }
 
 // ---- S08 -----------------------------------------------------------------------------------
-/// Positionals and options mixed
+/// DOC_S08Mixed_struct about this tool
 #[derive(ArgParse)]
 #[cli(help_path = "h-cli, mixed")]
 pub struct S08Mixed {
-    /// where to
+    /// DOC_S08Mixed_target_L1 explains this item
+    /// DOC_S08Mixed_target_L2 explains this item
+    /// DOC_S08Mixed_target_L3 explains this item
     target: &'static UnixStr,
+    /// DOC_S08Mixed_verbose explains this item
     #[cli(short = "v", long = "verbose")]
     verbose: bool,
+    /// DOC_S08Mixed_num explains this item
     #[cli(short = "n", long = "num")]
     num: i64,
+    /// DOC_S08Mixed_tags explains this item
     #[cli(long = "tag")]
     tags: Vec<String>,
+    /// DOC_S08Mixed_label explains this item
     label: Option<&'static str>,
 }
 impl Shape for S08Mixed {
     fn grammar() -> Grammar {
         Grammar {
             name: "S08Mixed",
+            doc: vec!["DOC_S08Mixed_struct"],
             opts: vec![
-                o(&["-v", "--verbose"], Kind::Flag, Ty::Str),
-                o(&["-n", "--num"], Kind::Req, INT_I64),
-                o(&["--tag"], Kind::Rep, Ty::Str),
+                o(&["-v", "--verbose"], Kind::Flag, Ty::Str).d(&["DOC_S08Mixed_verbose"]),
+                o(&["-n", "--num"], Kind::Req, INT_I64).d(&["DOC_S08Mixed_num"]),
+                o(&["--tag"], Kind::Rep, Ty::Str).d(&["DOC_S08Mixed_tags"]),
             ],
-            pos: vec![p("target", true, Ty::Unix), p("label", false, Ty::Str)],
+            pos: vec![p("target", true, Ty::Unix).d(&["DOC_S08Mixed_target_L1", "DOC_S08Mixed_target_L2", "DOC_S08Mixed_target_L3"]), p("label", false, Ty::Str).d(&["DOC_S08Mixed_label"])],
             sub: None,
             help: help::<Self>(),
         }
@@ -432,24 +468,29 @@ impl Shape for S08Mixed {
 #[derive(ArgParse)]
 #[cli(help_path = "h-cli, custom")]
 pub struct S09Custom {
+    /// DOC_S09Custom_color explains this item
     #[cli(long = "color")]
     color: Color,
+    /// DOC_S09Custom_level explains this item
     #[cli(long = "level")]
     level: Option<Level>,
+    /// DOC_S09Custom_small explains this item
     #[cli(short = "x")]
     small: Option<u8>,
+    /// DOC_S09Custom_shade explains this item
     shade: Option<Color>,
 }
 impl Shape for S09Custom {
     fn grammar() -> Grammar {
         Grammar {
             name: "S09Custom",
+            doc: vec![],
             opts: vec![
-                o(&["--color"], Kind::Req, COLOR),
-                o(&["--level"], Kind::Opt, LEVEL),
-                o(&["-x"], Kind::Opt, INT_U8),
+                o(&["--color"], Kind::Req, COLOR).d(&["DOC_S09Custom_color"]),
+                o(&["--level"], Kind::Opt, LEVEL).d(&["DOC_S09Custom_level"]),
+                o(&["-x"], Kind::Opt, INT_U8).d(&["DOC_S09Custom_small"]),
             ],
-            pos: vec![p("shade", false, COLOR)],
+            pos: vec![p("shade", false, COLOR).d(&["DOC_S09Custom_shade"])],
             sub: None,
             help: help::<Self>(),
         }
@@ -470,16 +511,21 @@ impl Shape for S09Custom {
 // ---- S10 -----------------------------------------------------------------------------------
 #[derive(ArgParse)]
 pub struct S10ManyOpts {
+    /// DOC_S10ManyOpts_alpha explains this item
     #[cli(short = "a")]
     alpha: i32,
+    /// DOC_S10ManyOpts_beta explains this item
     #[cli(short = "b")]
     beta: Option<i64>,
     #[cli(short = "c")]
     cflag: bool,
+    /// DOC_S10ManyOpts_delta explains this item
     #[cli(short = "d", long = "delta")]
     delta: Option<&'static str>,
+    /// DOC_S10ManyOpts_eps explains this item
     #[cli(long = "eps")]
     eps: Vec<u8>,
+    /// DOC_S10ManyOpts_fflag explains this item
     #[cli(short = "f")]
     fflag: bool,
     #[cli(long = "gamma")]
@@ -489,13 +535,14 @@ impl Shape for S10ManyOpts {
     fn grammar() -> Grammar {
         Grammar {
             name: "S10ManyOpts",
+            doc: vec![],
             opts: vec![
-                o(&["-a"], Kind::Req, INT_I32),
-                o(&["-b"], Kind::Opt, INT_I64),
+                o(&["-a"], Kind::Req, INT_I32).d(&["DOC_S10ManyOpts_alpha"]),
+                o(&["-b"], Kind::Opt, INT_I64).d(&["DOC_S10ManyOpts_beta"]),
                 o(&["-c"], Kind::Flag, Ty::Str),
-                o(&["-d", "--delta"], Kind::Opt, Ty::Str),
-                o(&["--eps"], Kind::Rep, INT_U8),
-                o(&["-f"], Kind::Flag, Ty::Str),
+                o(&["-d", "--delta"], Kind::Opt, Ty::Str).d(&["DOC_S10ManyOpts_delta"]),
+                o(&["--eps"], Kind::Rep, INT_U8).d(&["DOC_S10ManyOpts_eps"]),
+                o(&["-f"], Kind::Flag, Ty::Str).d(&["DOC_S10ManyOpts_fflag"]),
                 o(&["--gamma"], Kind::Opt, INT_I128),
             ],
             pos: vec![],
@@ -521,25 +568,28 @@ impl Shape for S10ManyOpts {
 }
 
 // ---- S11 -----------------------------------------------------------------------------------
-/// Doc comment on struct
+/// DOC_S11SubRequired_struct about this tool
 #[derive(ArgParse)]
 #[cli(help_path = "h-cli")]
 pub struct S11SubRequired {
-    /// Doc comment on field
+    /// DOC_S11SubRequired_sc explains this item
     #[cli(subcommand)]
     sc: Cmd11,
 }
-/// Doc comment on cmd
+/// DOC_Cmd11_enum enum level text that the generator does not print
 #[derive(Subcommand, Debug)]
 pub enum Cmd11 {
-    /// Doc comment on tag
+    /// DOC_Cmd11_CmdOne_L1 what the command does
+    /// DOC_Cmd11_CmdOne_L2 what the command does
     CmdOne,
+    /// DOC_Cmd11_CmdTwo what the command does
     CmdTwo(Sub11Two),
     CmdThree,
 }
 #[derive(ArgParse, Debug)]
 #[cli(help_path = "h-cli, cmd-two")]
 pub struct Sub11Two {
+    /// DOC_Sub11Two_field1 explains this item
     #[cli(long = "field1")]
     field1: i32,
 }
@@ -547,7 +597,8 @@ impl Shape for Sub11Two {
     fn grammar() -> Grammar {
         Grammar {
             name: "Sub11Two",
-            opts: vec![o(&["--field1"], Kind::Req, INT_I32)],
+            doc: vec![],
+            opts: vec![o(&["--field1"], Kind::Req, INT_I32).d(&["DOC_Sub11Two_field1"])],
             pos: vec![],
             sub: None,
             help: help::<Self>(),
@@ -565,10 +616,13 @@ impl Shape for S11SubRequired {
     fn grammar() -> Grammar {
         Grammar {
             name: "S11SubRequired",
+            doc: vec!["DOC_S11SubRequired_struct"],
             opts: vec![],
             pos: vec![],
             sub: Some(Sub {
                 optional: false,
+                field_doc: vec!["DOC_S11SubRequired_sc"],
+                var_docs: vec![vec!["DOC_Cmd11_CmdOne_L1", "DOC_Cmd11_CmdOne_L2"], vec!["DOC_Cmd11_CmdTwo"], vec![]],
                 vars: vec![
                     ("cmd-one", None),
                     ("cmd-two", Some(Sub11Two::grammar())),
@@ -597,17 +651,22 @@ pub struct S12NestedOptional {
     #[cli(subcommand)]
     command: Cmd12,
 }
+/// DOC_Cmd12_enum enum level text that the generator does not print
 #[derive(Subcommand, Debug)]
 pub enum Cmd12 {
+    /// DOC_Cmd12_MyTag what the command does
     MyTag(Nest12),
 }
 #[derive(ArgParse, Debug)]
 pub struct Nest12 {
+    /// DOC_Nest12_inner explains this item
     #[cli(subcommand)]
     inner: Option<Inner12>,
 }
+/// DOC_Inner12_enum enum level text that the generator does not print
 #[derive(Subcommand, Debug)]
 pub enum Inner12 {
+    /// DOC_Inner12_A what the command does
     A,
     B,
 }
@@ -615,10 +674,13 @@ impl Shape for Nest12 {
     fn grammar() -> Grammar {
         Grammar {
             name: "Nest12",
+            doc: vec![],
             opts: vec![],
             pos: vec![],
             sub: Some(Sub {
                 optional: true,
+                field_doc: vec!["DOC_Nest12_inner"],
+                var_docs: vec![vec!["DOC_Inner12_A"], vec![]],
                 vars: vec![("a", None), ("b", None)],
             }),
             help: help::<Self>(),
@@ -639,10 +701,13 @@ impl Shape for S12NestedOptional {
     fn grammar() -> Grammar {
         Grammar {
             name: "S12NestedOptional",
+            doc: vec![],
             opts: vec![],
             pos: vec![],
             sub: Some(Sub {
                 optional: false,
+                field_doc: vec![],
+                var_docs: vec![vec!["DOC_Cmd12_MyTag"]],
                 vars: vec![("my-tag", Some(Nest12::grammar()))],
             }),
             help: help::<Self>(),
@@ -659,81 +724,97 @@ impl Shape for S12NestedOptional {
 }
 
 // ---- S13 -----------------------------------------------------------------------------------
-/// My complex cli tool
+/// DOC_S13Complex_struct_L1 about this tool
+/// DOC_S13Complex_struct_L2 about this tool
 #[derive(ArgParse, Debug)]
 #[cli(help_path = "h-cli")]
 pub struct S13Complex {
-    /// Naked field, but has comment
+    /// DOC_S13Complex_my_field explains this item
     #[cli(long = "my-field")]
     my_field: i32,
+    /// DOC_S13Complex_my_field_has_short explains this item
     #[cli(short = "s", long = "my-field-has-short")]
     my_field_has_short: String,
     #[cli(long = "long-field")]
     my_field_has_long_remap: &'static UnixStr,
+    /// DOC_S13Complex_my_field_has_double_remap explains this item
     #[cli(short = "c", long = "long-double")]
     my_field_has_double_remap: &'static str,
+    /// DOC_S13Complex_subcommand explains this item
     #[cli(subcommand)]
     subcommand: Cmd13,
 }
+/// DOC_Cmd13_enum enum level text that the generator does not print
 #[derive(Subcommand, Debug)]
 pub enum Cmd13 {
-    /// For running
+    /// DOC_Cmd13_Run_L1 what the command does
+    /// DOC_Cmd13_Run_L2 what the command does
     Run(Run13),
+    /// DOC_Cmd13_List what the command does
     List(List13),
-    /// No comment
+    /// DOC_Cmd13_Other what the command does
     Other(Other13),
+    /// DOC_Cmd13_Arg what the command does
     Arg(Arg13),
 }
+/// DOC_Run13_struct about this tool
 #[derive(ArgParse, Debug)]
 #[cli(help_path = "h-cli, run")]
 pub struct Run13 {
+    /// DOC_Run13_arg_has_opt_str explains this item
     #[cli(short = "a")]
     arg_has_opt_str: Option<&'static str>,
     #[cli(short = "b")]
     arg_has_opt_unix_str: Option<&'static UnixStr>,
+    /// DOC_Run13_arg_has_rep_str explains this item
     #[cli(short = "c")]
     arg_has_rep_str: Vec<&'static str>,
+    /// DOC_Run13_arg_has_rep_unix_str explains this item
     #[cli(short = "d")]
     arg_has_rep_unix_str: Vec<&'static UnixStr>,
 }
 #[derive(ArgParse, Debug)]
 #[cli(help_path = "h-cli, list")]
 pub struct List13 {
+    /// DOC_List13_arg_has_opt_string explains this item
     #[cli(long = "arg-has-opt-string")]
     arg_has_opt_string: Option<String>,
+    /// DOC_List13_arg_has_rep_unix_string explains this item
     #[cli(long = "rep")]
     arg_has_rep_unix_string: Vec<UnixString>,
-    /// This is required
+    /// DOC_List13_arg_has_required_string explains this item
     #[cli(long = "req")]
     arg_has_required_string: String,
 }
 #[derive(ArgParse, Debug)]
 #[cli(help_path = "h-cli, other")]
 pub struct Other13 {
-    /// This field is required
+    /// DOC_Other13_required_field explains this item
     #[cli(long = "required-field")]
     required_field: i32,
-    /// Also has optional subcommand
     #[cli(subcommand)]
     subc_opt: Option<OtherSub13>,
 }
 #[derive(ArgParse, Debug)]
 #[cli(help_path = "h-cli, arg")]
 pub struct Arg13 {
-    /// Required positional argument
+    /// DOC_Arg13_subc_arg_L1 explains this item
+    /// DOC_Arg13_subc_arg_L2 explains this item
     subc_arg: String,
-    /// Optional option
+    /// DOC_Arg13_opt explains this item
     #[cli(short = "o")]
     opt: Option<i32>,
 }
+/// DOC_OtherSub13_enum enum level text that the generator does not print
 #[derive(Subcommand, Debug)]
 pub enum OtherSub13 {
+    /// DOC_OtherSub13_OnlyOneOption what the command does
     OnlyOneOption(OptStruct13),
 }
 #[derive(ArgParse, Debug)]
 #[cli(help_path = "h-cli, other, only-one-option")]
 pub struct OptStruct13 {
-    /// This isn't required
+    /// DOC_OptStruct13_only_one_opt_owned_field explains this item
     #[cli(long = "only-one-opt-owned-field")]
     only_one_opt_owned_field: Option<i128>,
 }
@@ -741,11 +822,12 @@ impl Shape for Run13 {
     fn grammar() -> Grammar {
         Grammar {
             name: "Run13",
+            doc: vec!["DOC_Run13_struct"],
             opts: vec![
-                o(&["-a"], Kind::Opt, Ty::Str),
+                o(&["-a"], Kind::Opt, Ty::Str).d(&["DOC_Run13_arg_has_opt_str"]),
                 o(&["-b"], Kind::Opt, Ty::Unix),
-                o(&["-c"], Kind::Rep, Ty::Str),
-                o(&["-d"], Kind::Rep, Ty::Unix),
+                o(&["-c"], Kind::Rep, Ty::Str).d(&["DOC_Run13_arg_has_rep_str"]),
+                o(&["-d"], Kind::Rep, Ty::Unix).d(&["DOC_Run13_arg_has_rep_unix_str"]),
             ],
             pos: vec![],
             sub: None,
@@ -769,10 +851,11 @@ impl Shape for List13 {
     fn grammar() -> Grammar {
         Grammar {
             name: "List13",
+            doc: vec![],
             opts: vec![
-                o(&["--arg-has-opt-string"], Kind::Opt, Ty::Str),
-                o(&["--rep"], Kind::Rep, Ty::Str),
-                o(&["--req"], Kind::Req, Ty::Str),
+                o(&["--arg-has-opt-string"], Kind::Opt, Ty::Str).d(&["DOC_List13_arg_has_opt_string"]),
+                o(&["--rep"], Kind::Rep, Ty::Str).d(&["DOC_List13_arg_has_rep_unix_string"]),
+                o(&["--req"], Kind::Req, Ty::Str).d(&["DOC_List13_arg_has_required_string"]),
             ],
             pos: vec![],
             sub: None,
@@ -795,7 +878,8 @@ impl Shape for OptStruct13 {
     fn grammar() -> Grammar {
         Grammar {
             name: "OptStruct13",
-            opts: vec![o(&["--only-one-opt-owned-field"], Kind::Opt, INT_I128)],
+            doc: vec![],
+            opts: vec![o(&["--only-one-opt-owned-field"], Kind::Opt, INT_I128).d(&["DOC_OptStruct13_only_one_opt_owned_field"])],
             pos: vec![],
             sub: None,
             help: help::<Self>(),
@@ -813,10 +897,13 @@ impl Shape for Other13 {
     fn grammar() -> Grammar {
         Grammar {
             name: "Other13",
-            opts: vec![o(&["--required-field"], Kind::Req, INT_I32)],
+            doc: vec![],
+            opts: vec![o(&["--required-field"], Kind::Req, INT_I32).d(&["DOC_Other13_required_field"])],
             pos: vec![],
             sub: Some(Sub {
                 optional: true,
+                field_doc: vec![],
+                var_docs: vec![vec!["DOC_OtherSub13_OnlyOneOption"]],
                 vars: vec![("only-one-option", Some(OptStruct13::grammar()))],
             }),
             help: help::<Self>(),
@@ -837,8 +924,9 @@ impl Shape for Arg13 {
     fn grammar() -> Grammar {
         Grammar {
             name: "Arg13",
-            opts: vec![o(&["-o"], Kind::Opt, INT_I32)],
-            pos: vec![p("subc_arg", true, Ty::Str)],
+            doc: vec![],
+            opts: vec![o(&["-o"], Kind::Opt, INT_I32).d(&["DOC_Arg13_opt"])],
+            pos: vec![p("subc_arg", true, Ty::Str).d(&["DOC_Arg13_subc_arg_L1", "DOC_Arg13_subc_arg_L2"])],
             sub: None,
             help: help::<Self>(),
         }
@@ -855,15 +943,18 @@ impl Shape for S13Complex {
     fn grammar() -> Grammar {
         Grammar {
             name: "S13Complex",
+            doc: vec!["DOC_S13Complex_struct_L1", "DOC_S13Complex_struct_L2"],
             opts: vec![
-                o(&["--my-field"], Kind::Req, INT_I32),
-                o(&["-s", "--my-field-has-short"], Kind::Req, Ty::Str),
+                o(&["--my-field"], Kind::Req, INT_I32).d(&["DOC_S13Complex_my_field"]),
+                o(&["-s", "--my-field-has-short"], Kind::Req, Ty::Str).d(&["DOC_S13Complex_my_field_has_short"]),
                 o(&["--long-field"], Kind::Req, Ty::Unix),
-                o(&["-c", "--long-double"], Kind::Req, Ty::Str),
+                o(&["-c", "--long-double"], Kind::Req, Ty::Str).d(&["DOC_S13Complex_my_field_has_double_remap"]),
             ],
             pos: vec![],
             sub: Some(Sub {
                 optional: false,
+                field_doc: vec!["DOC_S13Complex_subcommand"],
+                var_docs: vec![vec!["DOC_Cmd13_Run_L1", "DOC_Cmd13_Run_L2"], vec!["DOC_Cmd13_List"], vec!["DOC_Cmd13_Other"], vec!["DOC_Cmd13_Arg"]],
                 vars: vec![
                     ("run", Some(Run13::grammar())),
                     ("list", Some(List13::grammar())),
@@ -897,25 +988,33 @@ impl Shape for S13Complex {
 #[derive(ArgParse, Debug)]
 #[cli(help_path = "h-cli, svc")]
 pub struct S14OptSubWithOpts {
+    /// DOC_S14OptSubWithOpts_quiet explains this item
     #[cli(short = "q")]
     quiet: bool,
+    /// DOC_S14OptSubWithOpts_name explains this item
     #[cli(long = "name")]
     name: Option<&'static str>,
+    /// DOC_S14OptSubWithOpts_cmd_L1 explains this item
+    /// DOC_S14OptSubWithOpts_cmd_L2 explains this item
     #[cli(subcommand)]
     cmd: Option<Cmd14>,
 }
+/// DOC_Cmd14_enum enum level text that the generator does not print
 #[derive(Subcommand, Debug)]
 pub enum Cmd14 {
-    /// start it
+    /// DOC_Cmd14_Start what the command does
     Start(Start14),
     Stop,
-    /// report
+    /// DOC_Cmd14_Status what the command does
     Status,
 }
+/// DOC_Start14_struct about this tool
 #[derive(ArgParse, Debug)]
 #[cli(help_path = "h-cli, svc, start")]
 pub struct Start14 {
+    /// DOC_Start14_path explains this item
     path: &'static UnixStr,
+    /// DOC_Start14_port explains this item
     #[cli(short = "p")]
     port: Option<u16>,
 }
@@ -923,8 +1022,9 @@ impl Shape for Start14 {
     fn grammar() -> Grammar {
         Grammar {
             name: "Start14",
-            opts: vec![o(&["-p"], Kind::Opt, INT_U16)],
-            pos: vec![p("path", true, Ty::Unix)],
+            doc: vec!["DOC_Start14_struct"],
+            opts: vec![o(&["-p"], Kind::Opt, INT_U16).d(&["DOC_Start14_port"])],
+            pos: vec![p("path", true, Ty::Unix).d(&["DOC_Start14_path"])],
             sub: None,
             help: help::<Self>(),
         }
@@ -941,13 +1041,16 @@ impl Shape for S14OptSubWithOpts {
     fn grammar() -> Grammar {
         Grammar {
             name: "S14OptSubWithOpts",
+            doc: vec![],
             opts: vec![
-                o(&["-q"], Kind::Flag, Ty::Str),
-                o(&["--name"], Kind::Opt, Ty::Str),
+                o(&["-q"], Kind::Flag, Ty::Str).d(&["DOC_S14OptSubWithOpts_quiet"]),
+                o(&["--name"], Kind::Opt, Ty::Str).d(&["DOC_S14OptSubWithOpts_name"]),
             ],
             pos: vec![],
             sub: Some(Sub {
                 optional: true,
+                field_doc: vec!["DOC_S14OptSubWithOpts_cmd_L1", "DOC_S14OptSubWithOpts_cmd_L2"],
+                var_docs: vec![vec!["DOC_Cmd14_Start"], vec![], vec!["DOC_Cmd14_Status"]],
                 vars: vec![
                     ("start", Some(Start14::grammar())),
                     ("stop", None),
@@ -973,10 +1076,12 @@ impl Shape for S14OptSubWithOpts {
 // ---- S15 -----------------------------------------------------------------------------------
 #[derive(ArgParse)]
 pub struct S15BoolsOnly {
+    /// DOC_S15BoolsOnly_aflag explains this item
     #[cli(short = "a")]
     aflag: bool,
     #[cli(short = "b", long = "bee")]
     bflag: bool,
+    /// DOC_S15BoolsOnly_cflag explains this item
     #[cli(long = "cee")]
     cflag: bool,
 }
@@ -984,10 +1089,11 @@ impl Shape for S15BoolsOnly {
     fn grammar() -> Grammar {
         Grammar {
             name: "S15BoolsOnly",
+            doc: vec![],
             opts: vec![
-                o(&["-a"], Kind::Flag, Ty::Str),
+                o(&["-a"], Kind::Flag, Ty::Str).d(&["DOC_S15BoolsOnly_aflag"]),
                 o(&["-b", "--bee"], Kind::Flag, Ty::Str),
-                o(&["--cee"], Kind::Flag, Ty::Str),
+                o(&["--cee"], Kind::Flag, Ty::Str).d(&["DOC_S15BoolsOnly_cflag"]),
             ],
             pos: vec![],
             sub: None,
@@ -1008,14 +1114,16 @@ impl Shape for S15BoolsOnly {
 }
 
 // ---- S16 -----------------------------------------------------------------------------------
-/// Literals declared with upper case / underscores. The derive normalises option literals to
-/// lower-case kebab-case (the help text shows the normalised form), so the grammar below uses the
-/// normalised literals; what happens to the literal exactly as written is recorded as an
-/// observation by the harness (mode `observe`), not judged.
+// Literals declared with upper case / underscores. The derive normalises option literals to
+// lower-case kebab-case (the help text shows the normalised form), so the grammar below uses the
+// normalised literals; what happens to the literal exactly as written is recorded as an
+// observation by the harness (mode `observe`), not judged.
 #[derive(ArgParse)]
 pub struct S16Normalised {
+    /// DOC_S16Normalised_verbose explains this item
     #[cli(short = "V", long = "Verbose_Mode")]
     verbose: bool,
+    /// DOC_S16Normalised_count explains this item
     #[cli(short = "N")]
     count: Option<u8>,
 }
@@ -1023,9 +1131,10 @@ impl Shape for S16Normalised {
     fn grammar() -> Grammar {
         Grammar {
             name: "S16Normalised",
+            doc: vec![],
             opts: vec![
-                o(&["-v", "--verbose-mode"], Kind::Flag, Ty::Str),
-                o(&["-n"], Kind::Opt, INT_U8),
+                o(&["-v", "--verbose-mode"], Kind::Flag, Ty::Str).d(&["DOC_S16Normalised_verbose"]),
+                o(&["-n"], Kind::Opt, INT_U8).d(&["DOC_S16Normalised_count"]),
             ],
             pos: vec![],
             sub: None,
@@ -1042,25 +1151,28 @@ impl Shape for S16Normalised {
 }
 
 // ---- S17 -----------------------------------------------------------------------------------
-/// Values whose conversion error quotes the input
+/// DOC_S17Echo_struct about this tool
 #[derive(ArgParse)]
 #[cli(help_path = "h-cli, echo")]
 pub struct S17Echo {
+    /// DOC_S17Echo_echo explains this item
     #[cli(long = "echo")]
     echo: Option<Echo>,
     #[cli(short = "e")]
     many: Vec<Echo>,
+    /// DOC_S17Echo_word explains this item
     word: Option<Echo>,
 }
 impl Shape for S17Echo {
     fn grammar() -> Grammar {
         Grammar {
             name: "S17Echo",
+            doc: vec!["DOC_S17Echo_struct"],
             opts: vec![
-                o(&["--echo"], Kind::Opt, Ty::Echo),
+                o(&["--echo"], Kind::Opt, Ty::Echo).d(&["DOC_S17Echo_echo"]),
                 o(&["-e"], Kind::Rep, Ty::Echo),
             ],
-            pos: vec![p("word", false, Ty::Echo)],
+            pos: vec![p("word", false, Ty::Echo).d(&["DOC_S17Echo_word"])],
             sub: None,
             help: help::<Self>(),
         }
@@ -1073,6 +1185,211 @@ impl Shape for S17Echo {
             ],
             pos: vec![self.word.as_ref().map(|e| s(&e.0))],
             sub: None,
+        }
+    }
+}
+
+// ---- S18 -----------------------------------------------------------------------------------
+// Documented subcommand field declared BEFORE the options (documented and undocumented ones).
+/// DOC_S18SubFirst_struct sync tool
+#[derive(ArgParse)]
+#[cli(help_path = "h-cli, sync")]
+pub struct S18SubFirst {
+    /// DOC_S18SubFirst_action which action to run, see the command list
+    #[cli(subcommand)]
+    action: Cmd18,
+    #[cli(short = "j", long = "jobs")]
+    jobs: Option<u8>,
+    /// DOC_S18SubFirst_dry_run only print what would be done
+    #[cli(long = "dry-run")]
+    dry_run: bool,
+}
+/// DOC_Cmd18_enum not printed
+#[derive(Subcommand, Debug)]
+pub enum Cmd18 {
+    /// DOC_Cmd18_Push send
+    Push,
+    Pull,
+    /// DOC_Cmd18_MoveAll_L1 DANGEROUS also delete the sources
+    /// DOC_Cmd18_MoveAll_L2 second line
+    MoveAll(Move18),
+}
+#[derive(ArgParse, Debug)]
+#[cli(help_path = "h-cli, sync, move-all")]
+pub struct Move18 {
+    /// DOC_Move18_force do not ask
+    #[cli(short = "f")]
+    force: bool,
+}
+impl Shape for Move18 {
+    fn grammar() -> Grammar {
+        Grammar {
+            name: "Move18",
+            doc: vec![],
+            opts: vec![o(&["-f"], Kind::Flag, Ty::Str).d(&["DOC_Move18_force"])],
+            pos: vec![],
+            sub: None,
+            help: help::<Self>(),
+        }
+    }
+    fn to_val(&self) -> Val {
+        Val {
+            opts: vec![FV::Flag(self.force)],
+            pos: vec![],
+            sub: None,
+        }
+    }
+}
+impl Shape for S18SubFirst {
+    fn grammar() -> Grammar {
+        Grammar {
+            name: "S18SubFirst",
+            doc: vec!["DOC_S18SubFirst_struct"],
+            opts: vec![
+                o(&["-j", "--jobs"], Kind::Opt, INT_U8),
+                o(&["--dry-run"], Kind::Flag, Ty::Str).d(&["DOC_S18SubFirst_dry_run"]),
+            ],
+            pos: vec![],
+            sub: Some(Sub {
+                optional: false,
+                field_doc: vec!["DOC_S18SubFirst_action"],
+                var_docs: vec![
+                    vec!["DOC_Cmd18_Push"],
+                    vec![],
+                    vec!["DOC_Cmd18_MoveAll_L1", "DOC_Cmd18_MoveAll_L2"],
+                ],
+                vars: vec![
+                    ("push", None),
+                    ("pull", None),
+                    ("move-all", Some(Move18::grammar())),
+                ],
+            }),
+            help: help::<Self>(),
+        }
+    }
+    fn to_val(&self) -> Val {
+        Val {
+            opts: vec![FV::One(self.jobs.map(i)), FV::Flag(self.dry_run)],
+            pos: vec![],
+            sub: Some(match &self.action {
+                Cmd18::Push => (0, None),
+                Cmd18::Pull => (1, None),
+                Cmd18::MoveAll(m) => (2, Some(Box::new(m.to_val()))),
+            }),
+        }
+    }
+}
+
+// ---- S19 -----------------------------------------------------------------------------------
+// Documented (two lines) optional subcommand field declared BETWEEN option fields; the field
+// after it is documented, the one after that is not.
+#[derive(ArgParse)]
+#[cli(help_path = "h-cli, between")]
+pub struct S19SubBetween {
+    /// DOC_S19SubBetween_first leading option
+    #[cli(short = "a", long = "first")]
+    first: Option<i32>,
+    /// DOC_S19SubBetween_mode_L1 what to do
+    /// DOC_S19SubBetween_mode_L2 more about what to do
+    #[cli(subcommand)]
+    mode: Option<Cmd19>,
+    /// DOC_S19SubBetween_second_L1 trailing option
+    /// DOC_S19SubBetween_second_L2 more about the trailing option
+    #[cli(long = "second")]
+    second: Vec<&'static str>,
+    #[cli(short = "t")]
+    third: bool,
+}
+#[derive(Subcommand, Debug)]
+pub enum Cmd19 {
+    Fast,
+    /// DOC_Cmd19_Slow take your time
+    Slow,
+}
+impl Shape for S19SubBetween {
+    fn grammar() -> Grammar {
+        Grammar {
+            name: "S19SubBetween",
+            doc: vec![],
+            opts: vec![
+                o(&["-a", "--first"], Kind::Opt, INT_I32).d(&["DOC_S19SubBetween_first"]),
+                o(&["--second"], Kind::Rep, Ty::Str)
+                    .d(&["DOC_S19SubBetween_second_L1", "DOC_S19SubBetween_second_L2"]),
+                o(&["-t"], Kind::Flag, Ty::Str),
+            ],
+            pos: vec![],
+            sub: Some(Sub {
+                optional: true,
+                field_doc: vec!["DOC_S19SubBetween_mode_L1", "DOC_S19SubBetween_mode_L2"],
+                var_docs: vec![vec![], vec!["DOC_Cmd19_Slow"]],
+                vars: vec![("fast", None), ("slow", None)],
+            }),
+            help: help::<Self>(),
+        }
+    }
+    fn to_val(&self) -> Val {
+        Val {
+            opts: vec![
+                FV::One(self.first.map(i)),
+                FV::Many(self.second.iter().map(|x| s(x)).collect()),
+                FV::Flag(self.third),
+            ],
+            pos: vec![],
+            sub: self.mode.as_ref().map(|m| match m {
+                Cmd19::Fast => (0, None),
+                Cmd19::Slow => (1, None),
+            }),
+        }
+    }
+}
+
+// ---- S20 -----------------------------------------------------------------------------------
+// Documented subcommand field FIRST and the very next field undocumented; last field documented.
+#[derive(ArgParse)]
+pub struct S20SubThenBare {
+    /// DOC_S20SubThenBare_what pick one
+    #[cli(subcommand)]
+    what: Option<Cmd20>,
+    #[cli(short = "k")]
+    keep: bool,
+    /// DOC_S20SubThenBare_level how much
+    #[cli(long = "level")]
+    level: Option<i64>,
+}
+#[derive(Subcommand, Debug)]
+pub enum Cmd20 {
+    /// DOC_Cmd20_One the first
+    One,
+    /// DOC_Cmd20_TwoWords the second
+    TwoWords,
+}
+impl Shape for S20SubThenBare {
+    fn grammar() -> Grammar {
+        Grammar {
+            name: "S20SubThenBare",
+            doc: vec![],
+            opts: vec![
+                o(&["-k"], Kind::Flag, Ty::Str),
+                o(&["--level"], Kind::Opt, INT_I64).d(&["DOC_S20SubThenBare_level"]),
+            ],
+            pos: vec![],
+            sub: Some(Sub {
+                optional: true,
+                field_doc: vec!["DOC_S20SubThenBare_what"],
+                var_docs: vec![vec!["DOC_Cmd20_One"], vec!["DOC_Cmd20_TwoWords"]],
+                vars: vec![("one", None), ("two-words", None)],
+            }),
+            help: help::<Self>(),
+        }
+    }
+    fn to_val(&self) -> Val {
+        Val {
+            opts: vec![FV::Flag(self.keep), FV::One(self.level.map(i))],
+            pos: vec![],
+            sub: self.what.as_ref().map(|m| match m {
+                Cmd20::One => (0, None),
+                Cmd20::TwoWords => (1, None),
+            }),
         }
     }
 }
